@@ -180,11 +180,11 @@ Proof.
   rewrite (u32_small _ Hb). reflexivity.
 Qed.
 
-Corollary bloom_of_no_false_negative : forall es e,
-  In e es -> bf_might_have (bloom_of es) (e_key e) = true.
+Corollary bloom_of_no_false_negative : forall tp es e, params_ok tp ->
+  In e es -> bf_might_have (bloom_of tp es) (e_key e) = true.
 Proof.
-  intros es e He. unfold bloom_of, table_bloom_bits, table_bloom_hashes.
-  apply bloom_no_false_negative; [reflexivity|reflexivity|]. apply in_map. exact He.
+  intros tp es e (_ & Hb & Hb2 & _) He. unfold bloom_of.
+  apply bloom_no_false_negative; [exact Hb|exact Hb2|]. apply in_map. exact He.
 Qed.
 
 (* ---------- 2. Encode / Decode ---------- *)
@@ -264,11 +264,12 @@ Proof.
   change (bf_add_all bf (k :: keys)) with (bf_add_all (bf_add bf k) keys). apply IH, bf_add_wf, H.
 Qed.
 
-Lemma bloom_of_wf : forall es, bloom_wf (bloom_of es).
+Lemma bloom_of_wf : forall tp es, params_ok tp -> bloom_wf (bloom_of tp es).
 Proof.
-  intros es. unfold bloom_of. apply bf_add_all_wf. apply bf_new_wf; reflexivity.
+  intros tp es (_ & Hb & Hb2 & Hh). unfold bloom_of. apply bf_add_all_wf. apply bf_new_wf; [lia|exact Hh].
 Qed.
 
 (* the bloom block a table writer emits is read back exactly *)
-Corollary bloom_of_decode_encode es r : bf_decode (bf_encode (bloom_of es) ++ r) = Some (bloom_of es, r).
-Proof. apply bf_decode_encode, bloom_of_wf. Qed.
+Corollary bloom_of_decode_encode tp es r : params_ok tp ->
+  bf_decode (bf_encode (bloom_of tp es) ++ r) = Some (bloom_of tp es, r).
+Proof. intros H. apply bf_decode_encode, bloom_of_wf, H. Qed.
